@@ -305,5 +305,59 @@ pub trait KvDatabaseScan {
             r.iter.scans() == (C::STABLE_TYPE_ID, ColumnKind::KeyOfSet, lp(key.bytes()))
 //@ end
 
+
+// ---------------------------------------------------------------- member scan, element side
+/// element split used by ScanMemberIterator::next: skipping 8 + length bytes of a stored key yields the element bytes
+pub proof fn lemma_member_split_f(kb: Seq<u8>, e: Seq<u8>)
+    requires kb.len() < 0x1_0000_0000_0000_0000
+    ensures ({ let s = lp(kb) + e; s.subrange(8 + le64_val(s.subrange(0, 8)) as int, s.len() as int) == e })
+{
+    lemma_le64_roundtrip(kb.len());
+    let s = lp(kb) + e;
+    assert(s.subrange(0, 8) =~= le64(kb.len()));
+    assert(s.subrange(8 + kb.len() as int, s.len() as int) =~= e);
+}
+/// fjall's iterator item (a guard giving access to the stored key)
+#[verifier::external_body]
+pub struct Guard { _p: u8 }
+impl Guard {
+    pub uninterp spec fn stored_key(&self) -> Seq<u8>;
+    #[verifier::external_body]
+    pub fn key(self) -> (r: Result<UserValue, std::fmt::Error>)
+        ensures r matches Ok(k) && k.view_bytes() == self.stored_key()
+    { unimplemented!() }
+}
+impl fjall::Iter {
+    /// the stored key the iterator is positioned at (None: prefix exhausted). ASSUMPTION (write paths above): every key stored
+    /// in a key-of-set keyspace is a member_key image lp(kb) ++ eb with kb shorter than 2^56 bytes
+    pub uninterp spec fn at(&self) -> Option<Seq<u8>>;
+    #[verifier::external_body]
+    pub fn next(&mut self) -> (r: Option<Guard>)
+        ensures
+            old(self).at() is None ==> r is None,
+            old(self).at() matches Some(k) ==> (r matches Some(g) && g.stored_key() == k
+                && exists|kb: Seq<u8>, eb: Seq<u8>| #![trigger lp(kb) + eb] k == lp(kb) + eb && kb.len() < 0x100_0000_0000_0000 && 8 + kb.len() + eb.len() <= usize::MAX),
+    { unimplemented!() }
+}
+//@ impl crates/storage/src/kv_database/fjall.rs :: impl<C: KeyOfSetColumn> Iterator for ScanMemberIterator<C>
+//@ header-sub Iterator for ScanMemberIterator<C> => ScanMemberIterator<C>
+//@ member next
+//@ text-sub Option<Self::Item> => Option<C::Element>
+//@ ret r
+//@ sig
+        ensures
+            old(self).iter.at() is None ==> r is None,
+            old(self).iter.at() matches Some(k) ==> (r matches Some(e)
+                && forall|kb: Seq<u8>, e0: C::Element| #![trigger lp(kb) + e0.bytes()] k == lp(kb) + e0.bytes() && kb.len() < 0x100_0000_0000_0000 ==> e.bytes() == e0.bytes()),
+//@ head
+        proof {
+            axiom_try_from_slice8();
+            assert forall|kb: Seq<u8>, eb: Seq<u8>| #![trigger lp(kb) + eb] kb.len() < 0x100_0000_0000_0000 implies ({
+                let s = lp(kb) + eb;
+                s.subrange(0, 8) =~= le64(kb.len()) && le64_val(s.subrange(0, 8)) == kb.len() && s.subrange(8 + kb.len() as int, s.len() as int) =~= eb && s.len() == 8 + kb.len() + eb.len()
+            }) by { lemma_le64_roundtrip(kb.len()); lemma_member_split_f(kb, eb); }
+        }
+//@ end
+
 } // verus!
 fn main() {}
